@@ -460,6 +460,33 @@ def run(ctx):
                 ok = (a[0] == b[0] == 'rt') or (a[0] == b[0] == 'val' and a[1][0] == 'b' and b[1][0] == 'b' and a[1][1] != b[1][1])
                 if not ok:
                     ctx.violation("oracle", f"`({v}) is {p}` gives {a} but `({v}) is not {p}` gives {b}", {"op": "predicate", "value": v, "pred": p})
+        # ---------------- the same parsed expression evaluated again under other variable values (in a function called several times and in a
+        # loop) gives what a fresh evaluation of the expression with those values gives: nothing is remembered between evaluations
+        # (comparison chains with compound middle operands, short-circuit forms, arithmetic; valuations ordered so that an early exit —
+        # FALSE first comparison, deciding and/or clause, error — precedes a full evaluation and vice versa)
+        exprs = ["a < b + 0 < c", "a < b * 1 <= c < a + 10", "a <= (b - 1) < (c + 1)", "a == b + 0 != c", "0 < a + b < c * 2", "a < -b < c", "not (a < b + 0 < c)",
+                 "a < b and b + 0 < c", "a > b or b * 1 > c", "(a < b + 0) == (b + 0 < c)", "a + b * c", "a - b - c", "a / (b + 1) % (c + 1)", "a < (if b > 1 then b else c) < c + 1",
+                 "a < b + 0 < c and c < a + b < 100", "[a < b + 0 < c, a + 0 < b < c + 0]", "a < b + 0 < c or a > b + 0 > c"]
+        vals = [(5, 1, 9), (0, 3, 9), (0, 3, 2), (2, 2, 2), (-1, 0, 1), (9, 8, 7), (1, 2, 3), (3, 1, 2), (0, 0, 5)]
+        for ex in exprs:
+            fresh = []
+            for (a, b, c) in vals:
+                r = impl.run(f"def a = {a}; def b = {b}; def c = {c}; {ex}")[0][:2]
+                fresh.append(r)
+            triples = "[" + ", ".join(f"[{a}, {b}, {c}]" for a, b, c in vals) + "]"
+            progs_re = [(f"def f_(a, b, c) {ex}; [" + ", ".join(f"f_({a}, {b}, {c})" for a, b, c in vals) + "]", "function called 9 times"),
+                        (f"def r_ = []; for [a, b, c] in {triples} do append(r_, {ex}) end; r_", "loop body"),
+                        (f"[(fn(a, b, c) {ex})(...t3) for t3 in {triples}]", "comprehension"),
+                        (f"def g_ = fn(a, b, c) do def t_ = {ex}; t_ end; def r_ = []; for t3 in {triples} do append(r_, g_(...t3)) end; r_", "lambda with spread")]
+            if not all(r[0] == 'val' for r in fresh):
+                continue
+            want = ('val', ('l', tuple(r[1] for r in fresh)))
+            for src, how in progs_re:
+                got = impl.run(src)[0][:2]
+                ctx.seen(("reeval", src), nontrivial=True)
+                ctx.count("re_evaluations")
+                if got != want:
+                    ctx.violation("oracle", f"`{ex}` evaluated again ({how}) over {vals} gives {got}, fresh evaluations give {want}", {"op": "expr", "src": src})
         # ---------------- `+` between a string and a value of another kind is concatenation with that value's text (the text string() gives)
         texts = ["0", "-7", "9007199254740993", "100000000000000000007", "2.5", "-0.5", "0.1", "1.0", "0.00001", "0.000000123", "1.0 / 100000", "1.0 / 3",
                  "10000000000000000.0", "123456789012345678901234.0", "1.5 * 10000000000000000000000", "1.0 * 9007199254740993", "TRUE", "NULL", "date('20200229')"]   # atoms only: `+` with a collection is a collection operation
